@@ -72,7 +72,22 @@ pub enum Cmd {
     /// else is blocked: `st 0 | { selfkill STOP; st K; }` (last) or `{ selfkill STOP; st K; } | cat`.
     /// The shell has no job control here, so it must go on waiting for the component's real end.
     StopStage { st: u8, last: bool },
+    /// `wait` with several operands: each is the k-th background job of this process (modulo the
+    /// number started) or, for 255, a process ID that is not a child; the status is that of the last
+    /// operand (127 if that one is unknown or already collected)
+    WaitMany(Vec<u8>),
+    /// a subshell whose last command was killed by a signal ends by that signal itself, so that
+    /// the parent sees "killed by the signal" (384 + number) - also when the subshell has a trap
+    /// for that signal (`trapped`: `( trap : SIG; ( selfkill SIG ) )`) or inherited "ignored" for it
+    /// from its parent (`( trap '' SIG; ( trap '' SIG; ( trap - SIG; selfkill SIG ) ) )`... the
+    /// middle subshell)
+    KilledLast { sig: u8, trapped: bool },
+    /// `{ trap - INT; selfkill INT; mark 9990; } & wait $!`: an asynchronous list starts with SIGINT
+    /// ignored (no job control); once its trap is reset the signal's default action applies
+    AsyncResetInt,
 }
+
+const KSIGS: [(&str, i32); 3] = [("USR1", 124), ("USR2", 125), ("TERM", 15)];
 
 fn early_exit_len(extra: u16, cats: u8) -> usize {
     // strictly more than all pipes (1024 each) plus the cats' buffers (200 each) can absorb
@@ -211,6 +226,25 @@ fn render_cmd(c: &Cmd, r: &mut Ren, nbg: &mut u8, outer: u8) {
             }
         }
         Cmd::WaitUnknown => r.out.push_str("wait 99999"),
+        Cmd::WaitMany(ks) => {
+            r.out.push_str("wait");
+            for k in ks {
+                if *k == 255 || *nbg == 0 {
+                    r.out.push_str(" 99999");
+                } else {
+                    r.out.push_str(&format!(" $p{}", k % *nbg));
+                }
+            }
+        }
+        Cmd::KilledLast { sig, trapped } => {
+            let name = KSIGS[*sig as usize % 3].0;
+            if *trapped {
+                r.out.push_str(&format!("( trap : {name}; ( selfkill {name} ) )"));
+            } else {
+                r.out.push_str(&format!("( trap '' {name}; ( ( trap - {name}; selfkill {name} ) ) )"));
+            }
+        }
+        Cmd::AsyncResetInt => r.out.push_str("{ trap - INT; selfkill INT; mark 9990; } & wait $!"),
         Cmd::WaitOuter(k) => {
             // `$pK` still names the enclosing process' job only while this process has not started
             // jobs of its own
@@ -345,6 +379,32 @@ impl M {
                     }
                 }
                 Cmd::WaitUnknown | Cmd::WaitOuter(_) => p.status = 127,
+                Cmd::WaitMany(ks) => {
+                    p.status = 0;
+                    for k in ks {
+                        if *k == 255 || jobs.is_empty() {
+                            p.status = 127;
+                        } else {
+                            let i = *k as usize % jobs.len();
+                            if jobs[i].1 {
+                                jobs[i].1 = false;
+                                p.status = jobs[i].0;
+                            } else {
+                                p.status = 127;
+                            }
+                        }
+                    }
+                }
+                Cmd::KilledLast { sig, trapped } => {
+                    for _ in 0..(if *trapped { 2 } else { 3 }) {
+                        self.children.push(vec![]);
+                    }
+                    p.status = 384 + KSIGS[*sig as usize % 3].1;
+                }
+                Cmd::AsyncResetInt => {
+                    self.children.push(vec![]);
+                    p.status = 384 + 2;
+                }
                 Cmd::Pipefail(on) => {
                     p.pipefail = *on;
                     p.status = 0;
@@ -564,6 +624,16 @@ fn arb_scenario() -> impl Strategy<Value = Vec<Cmd>> {
             v.extend([Cmd::Wait, Cmd::WaitPid(k), Cmd::Mark(0), Cmd::WaitPid(j), Cmd::Mark(0)]);
             v
         }),
+        // `wait` with several operands, the last one known, unknown or already collected
+        (prop::collection::vec(0u8..4, 1..4), prop::collection::vec(prop_oneof![3 => 0u8..3, 1 => Just(255u8)], 2..4)).prop_map(|(sts, ks)| {
+            let mut v: Vec<Cmd> = sts.iter().map(|n| Cmd::Bg(vec![Cmd::St(*n)])).collect();
+            v.extend([Cmd::WaitMany(ks), Cmd::Mark(0)]);
+            v
+        }),
+        // subshells that must die of the signal that killed their last command; an asynchronous
+        // list that resets its trap for SIGINT
+        (0u8..3, any::<bool>()).prop_map(|(sig, trapped)| vec![Cmd::KilledLast { sig, trapped }, Cmd::Mark(0)]),
+        Just(vec![Cmd::AsyncResetInt, Cmd::Mark(0)]),
         // a status asked for twice, and several operands' worth of waits in a row
         (prop::collection::vec(1u8..4, 1..4), 0u8..3).prop_map(|(sts, k)| {
             let mut v: Vec<Cmd> = sts.iter().map(|n| Cmd::Bg(vec![Cmd::Mark(0), Cmd::St(*n)])).collect();
